@@ -770,9 +770,48 @@ func reverseNodes(n []DNode) {
 }
 
 // enumerate lists the complete space of the tier.
+// shifted returns a copy of d with every id and ref moved by off (coordinates,
+// tags and metadata stay): ids of 2^40 and above do not fit the ref bits of the
+// packed osm.FeatureID / ElementID, a feature must carry the element's own id.
+func shifted(d Data, off int64) Data {
+	o := Data{Name: d.Name + fmt.Sprintf("/ids+%d", off), Family: d.Family}
+	for _, n := range d.Nodes {
+		n.ID += off
+		o.Nodes = append(o.Nodes, n)
+	}
+	for _, w := range d.Ways {
+		w.ID += off
+		nd := make([]DWayNode, len(w.Nodes))
+		for i, x := range w.Nodes {
+			x.ID += off
+			nd[i] = x
+		}
+		w.Nodes = nd
+		o.Ways = append(o.Ways, w)
+	}
+	for _, r := range d.Rels {
+		r.ID += off
+		ms := make([]DMember, len(r.Members))
+		for i, m := range r.Members {
+			m.Ref += off
+			ms[i] = m
+		}
+		r.Members = ms
+		o.Rels = append(o.Rels, r)
+	}
+	return o
+}
+
 func enumerate(quick bool) []Data {
 	var out []Data
-	emit := func(d Data) { out = append(out, d) }
+	k := 0
+	emit := func(d Data) {
+		out = append(out, d)
+		// every 9th data set of every family once more with ids beyond 40 bits
+		if k++; k%9 == 0 {
+			out = append(out, shifted(d, 1<<40+1<<33))
+		}
+	}
 	genNode(quick, emit)
 	genUnintKey(emit)
 	genWay(quick, emit)
